@@ -104,6 +104,14 @@ def build_corpus(tier, rng):
         items.append(("random", Item("E", vs, metas=emetas)))
     nk = Item("E", [Variant("A", "unit", [], [props([("color", ("s", "red")), ("n", ("i", 7)), ("ok", ("b", False))])]), Variant("B", "tuple", [Field("u8")]),
                     Variant("C", "unit", [], [DISABLED, props([("color", ("s", "never"))])])])
+    # options of OTHER derives that change what those derives do with the variant — transparent, default — mean nothing to EnumProperty:
+    # the variant answers from ITS OWN table (seed C15_r16: a transparent variant forwarded unknown keys to its inner field)
+    from vlib.defs import TRANSPARENT, DEFAULT
+    items.append(("foreign-transparent", Item("E", [
+        Variant("Len", "tuple", [Field("String")], [TRANSPARENT, props([("kind", ("s", "length")), ("n", ("i", 3))])]),
+        Variant("Raw", "named", [Field("String", "text")], [TRANSPARENT]),
+        Variant("Rest", "tuple", [Field("String")], [DEFAULT, props([("kind", ("s", "rest"))])]),
+        Variant("Plain", "unit", [], [props([("kind", ("s", "plain")), ("ok", ("b", True))])])])))
     nk.namesakes = True       # inherent get_str / get_int / get_bool on the user's enum
     items.append(("inherent-namesakes", nk))
     # case-twin keys on one variant, under case-insensitive flags
